@@ -33,10 +33,20 @@ VARIABLES
   \* @type: Int;
   c4,
   \* @type: Int;
-  c5
+  c5,
+  \* @type: Int;
+  q1,
+  \* @type: Int;
+  q2,
+  \* @type: Int;
+  q3,
+  \* @type: Int;
+  q4,
+  \* @type: Int;
+  q5
 
-\* @type: <<Int, Int, Int, Int, Int, Int, Int, Int, Int, Int, Int, Int, Int, Int, Int>>;
-vars == <<hi, lo, s, n, b1, b2, b3, b4, b5, m, c1, c2, c3, c4, c5>>
+\* @type: <<Int, Int, Int, Int, Int, Int, Int, Int, Int, Int, Int, Int, Int, Int, Int, Int, Int, Int, Int, Int>>;
+vars == <<hi, lo, s, n, b1, b2, b3, b4, b5, m, c1, c2, c3, c4, c5, q1, q2, q3, q4, q5>>
 
 Init ==
   /\ hi \in Int /\ lo \in Int /\ s \in Int /\ n \in Int /\ m \in Int
@@ -45,6 +55,19 @@ Init ==
   /\ Limb(hi) /\ Limb(lo) /\ s >= 0 /\ s <= 127 /\ n >= 0 /\ m >= 0
   /\ Byte(b1) /\ Byte(b2) /\ Byte(b3) /\ Byte(b4) /\ Byte(b5)
   /\ Byte(c1) /\ Byte(c2) /\ Byte(c3) /\ Byte(c4) /\ Byte(c5)
+  /\ q1 \in Int /\ q2 \in Int /\ q3 \in Int /\ q4 \in Int /\ q5 \in Int
+\* ANY five septets (4 + 7 + 7 + 7 + 7 bits) and the limbs of the number they write
+SeptetTie ==
+  /\ q1 >= 0 /\ q1 <= 15 /\ q2 >= 0 /\ q2 <= 127 /\ q3 >= 0 /\ q3 <= 127 /\ q4 >= 0 /\ q4 <= 127 /\ q5 >= 0 /\ q5 <= 127
+  /\ q1 * 268435456 + q2 * 2097152 + q3 * 16384 + q4 * 128 + q5 = hi * 65536 + lo
+InitQ == Init /\ SeptetTie
+\* the septets ARE those of the library's encoder; SeptetTie is then redundant (it is lemma SeptetsExact, proved from
+\* Init alone) and only spares the solver the reasoning about \div and %: InitEnc and Init /\ (q = B128Septets(..))
+\* have the same states
+InitEnc ==
+  /\ Init
+  /\ LET q == B128Septets(Pair(hi, lo)) IN q1 = q[1] /\ q2 = q[2] /\ q3 = q[3] /\ q4 = q[4] /\ q5 = q[5]
+  /\ SeptetTie
 Next == UNCHANGED vars
 
 \* B1: B128Push is acc * 128 + septet on limb pairs whenever the library lets it run (acc[1] < 512, i.e.
@@ -97,5 +120,72 @@ Injective ==
 \* only first byte with continuation bit and zero digit, so this one is actually true ... the false claim is
 \* that it accepts only minimal encodings of length <= 4)
 PlantedFalse == DecB128(n, b1, b2, b3, b4, b5).ok => DecB128(n, b1, b2, b3, b4, b5).used <= 4
-LemmaInv == PushExact /\ SeptetsExact /\ RoundTrip /\ DecodeExact
+\* B3 on septets: the string written from ANY five septets by EncB128's rule (strip leading zero septets, set the
+\* continuation bit on all but the last) decodes to the number the septets write, whatever follows it
+\* @type: (<<Int, Int, Int, Int, Int>>, Int) => Int;
+EncByteQ(q, k) ==
+  LET len == StripLen(q) IN IF k > len THEN 0 ELSE Sept(q, 5 - len + k) + (IF k < len THEN 128 ELSE 0)
+\* @type: (Int, Int, Int, Int, Int) => <<Int, Int, Int, Int, Int>>;
+Q5(a, b, c, d, e) == <<a, b, c, d, e>>
+RoundTripQ ==
+  LET q == Q5(q1, q2, q3, q4, q5)  len == StripLen(q)
+      E(k, g) == IF k <= len THEN EncByteQ(q, k) ELSE g
+  IN
+  /\ len >= 1 /\ len <= 5 /\ EncByteQ(q, 1) # 128
+  /\ Byte(EncByteQ(q, 1)) /\ Byte(EncByteQ(q, 2)) /\ Byte(EncByteQ(q, 3)) /\ Byte(EncByteQ(q, 4)) /\ Byte(EncByteQ(q, 5))
+  /\ n >= len => DecB128(n, E(1, b1), E(2, b2), E(3, b3), E(4, b4), E(5, b5))
+                   = [ok |-> TRUE, hi |-> hi, lo |-> lo, used |-> len]
+  /\ n < len => ~DecB128(n, E(1, b1), E(2, b2), E(3, b3), E(4, b4), E(5, b5)).ok
+  /\ (len = 1 \/ hi * 65536 + lo >= (IF len = 2 THEN 128 ELSE IF len = 3 THEN 16384 ELSE IF len = 4 THEN 2097152 ELSE 268435456))
+\* the same, one length at a time, the bytes written out
+\* @type: ({ ok: Bool, hi: Int, lo: Int, used: Int }, Int, Int, Int) => Bool;
+OkIs(r, h, l, u) == r.ok /\ r.hi = h /\ r.lo = l /\ r.used = u
+RT5 == (q1 # 0 /\ n >= 5) => OkIs(DecB128(n, q1 + 128, q2 + 128, q3 + 128, q4 + 128, q5), hi, lo, 5)
+RT4 == (q1 = 0 /\ q2 # 0 /\ n >= 4) => OkIs(DecB128(n, q2 + 128, q3 + 128, q4 + 128, q5, b5), hi, lo, 4)
+RT3 == (q1 = 0 /\ q2 = 0 /\ q3 # 0 /\ n >= 3) => OkIs(DecB128(n, q3 + 128, q4 + 128, q5, b4, b5), hi, lo, 3)
+RT2 == (q1 = 0 /\ q2 = 0 /\ q3 = 0 /\ q4 # 0 /\ n >= 2) => OkIs(DecB128(n, q4 + 128, q5, b3, b4, b5), hi, lo, 2)
+RT1 == (q1 = 0 /\ q2 = 0 /\ q3 = 0 /\ q4 = 0 /\ n >= 1) => OkIs(DecB128(n, q5, b2, b3, b4, b5), hi, lo, 1)
+\* RoundTripQ with the length as a bound numeral L (one-point rule: L = StripLen(q)); EncByteL(q, L, k) then folds to
+\* the explicit bytes of RT1 .. RT5
+\* @type: (<<Int, Int, Int, Int, Int>>, Int, Int) => Int;
+EncByteL(q, L, k) == IF k > L THEN 0 ELSE Sept(q, 5 - L + k) + (IF k < L THEN 128 ELSE 0)
+RoundTripL ==
+  LET q == Q5(q1, q2, q3, q4, q5) IN
+  /\ StripLen(q) \in 1 .. 5
+  /\ \A L \in 1 .. 5 : L = StripLen(q) =>
+       LET E(k, g) == IF k <= L THEN EncByteL(q, L, k) ELSE g IN
+       /\ EncByteL(q, L, 1) # 128 /\ EncByteQ(q, 1) = EncByteL(q, L, 1)
+       /\ \A k \in 1 .. 5 : Byte(EncByteL(q, L, k)) /\ EncByteQ(q, k) = EncByteL(q, L, k)
+       /\ n >= L => OkIs(DecB128(n, E(1, b1), E(2, b2), E(3, b3), E(4, b4), E(5, b5)), hi, lo, L)
+       /\ n < L => ~DecB128(n, E(1, b1), E(2, b2), E(3, b3), E(4, b4), E(5, b5)).ok
+       /\ (L = 1 \/ hi * 65536 + lo >= (IF L = 2 THEN 128 ELSE IF L = 3 THEN 16384 ELSE IF L = 4 THEN 2097152 ELSE 268435456))
+RoundTripC ==
+  LET e == EncCases(Q5(q1, q2, q3, q4, q5))
+      G(k, x, g) == IF k <= e[1] THEN x ELSE g
+      r == DecB128(n, e[2], G(2, e[3], b2), G(3, e[4], b3), G(4, e[5], b4), G(5, e[6], b5))
+  IN
+  /\ e[1] >= 1 /\ e[1] <= 5 /\ e[2] # 128
+  /\ Byte(e[2]) /\ Byte(e[3]) /\ Byte(e[4]) /\ Byte(e[5]) /\ Byte(e[6])
+  /\ n >= e[1] => OkIs(r, hi, lo, e[1])
+  /\ n < e[1] => ~r.ok
+\* RoundTripC one encoding length at a time (RoundTripC is their conjunction, the length being one of 1 .. 5)
+RTC(k) ==
+  LET e == EncCases(Q5(q1, q2, q3, q4, q5))
+      G(j, x, g) == IF j <= e[1] THEN x ELSE g
+      r == DecB128(n, e[2], G(2, e[3], b2), G(3, e[4], b3), G(4, e[5], b4), G(5, e[6], b5))
+  IN
+  e[1] = k =>
+    /\ e[2] # 128 /\ Byte(e[2]) /\ Byte(e[3]) /\ Byte(e[4]) /\ Byte(e[5]) /\ Byte(e[6])
+    /\ n >= k => OkIs(r, hi, lo, k)
+    /\ n < k => ~r.ok
+    /\ (k = 1 \/ hi * 65536 + lo >= (IF k = 2 THEN 128 ELSE IF k = 3 THEN 16384 ELSE IF k = 4 THEN 2097152 ELSE 268435456))
+RTC1 == RTC(1)
+RTC2 == RTC(2)
+RTC3 == RTC(3)
+RTC4 == RTC(4)
+RTC5 == RTC(5)
+RTCLen == EncCases(Q5(q1, q2, q3, q4, q5))[1] \in 1 .. 5
+\* lemma-as-hint: SeptetsExact and DecodeExact are proved on their own; with them as hypotheses the solver needs no
+\* reasoning about \div and % to see RoundTrip (modus ponens is left to the reader)
+RoundTripFromLemmas == SeptetsExact => RoundTrip
 =============================================================================
